@@ -102,4 +102,9 @@ CLAIMS = {
         technique='symbolic execution (CrossHair/z3) of iter_xml/match_tag/emitters on shape-enumerated character-symbolic strings; z3 regex inclusion from the live lexer pattern',
         text='Bounded solver verdict over all code points for every enumerated string shape; unbounded regular-language totality of the lexer.',
         note='Trusted: CrossHair string/regex model + chsym plugin (Token.__new__ modelled, other Token methods real); whole-pipeline PageTemplate(doc)()==doc is outside (compile() boundary).'),
+    'C16': dict(
+        engine='X', level='model_checking', design_ref='DESIGN.md 4 C16',
+        technique='symbolic execution (CrossHair/z3) of the real file-template reload path (cook_check, mtime, read, cook, render, Macros) on a model file: one inductive step from every reachable state plus bounded histories of symbolic operations / versions / modification times; symbolic execution of the real TemplateLoader.load, zpt loader and PageTemplateFile.__init__ over a symbolic file-existence matrix',
+        text='One use from every reachable state (never used / compiled from version v at mtime m; file unchanged, rewritten or touched; any mtime) is decided to serve the latest version, recompile exactly when the mtime changed and leave a state equivalent to a freshly built one, which extends to histories of any length by induction; bounded histories and loader resolution (first match, extension rule, same instance, load: next to the template first) are decided for all operation sequences resp. existence patterns in the bound.',
+        note='Trusted: the model file (open/getmtime/exists in chameleon.template and chameleon.loader answer from a dict resp. a symbolic matrix), modification times fresh on every change, compile step memoised per body (3 concrete documents), the state-equivalence argument (behaviour depends only on the compared instance attributes), CrossHair.'),
 }
